@@ -179,8 +179,9 @@ class BaseKey(t.Generic[NativePrivateKey, NativePublicKey], metaclass=ABCMeta):
             data.update(params)
             return data
 
-        # clear private fields
-        for k in self.dict_value:
+        # clear private fields; iterate over the copy, another thread may be
+        # adding the "kid" to the shared dict right now (``ensure_kid``)
+        for k in list(data):
             if k in self.value_registry and self.value_registry[k].private:
                 del data[k]
 
